@@ -1189,6 +1189,24 @@ def dedup_total_rule(rep, F):
             ins = [c for c in calls if re.search(r"BTreeSet.*::insert$", c.to or "")]
             pushes = [c for c in calls if (c.to or "").endswith("Vec::<T, A>::push")]
             rets = [bi for bi, bb in enumerate(fn["bbs"]) if bb["t"][1] in ("ret", "return") and not bb["c"]]
+            if heads and rets and not ins and not pushes:
+                # iterator form: `.iter().filter(|e| set.insert(..))...collect()` - the closure's verdict IS the ordered-set insert
+                flt = [c for c in calls if (c.to or "").endswith("Iterator::filter")]
+                cl = [x for x in F.fns if x.startswith(fid + "::{closure")]
+                cl_ins = [x for x in cl if any(re.search(r"BTreeSet.*::insert$", k.to or "") for k in F.calls(x))]
+                if flt and cl_ins:
+                    rep.inst("DEDUP-total")
+                    for r in rets:
+                        if not any(_mp.dominated_by(fn, r, h.bb) for h in flt):
+                            rep.violation("DEDUP-total", "%s::%s|early-exit" % (T, m), "%s::%s can return without filtering its elements through the ordered set (the return is not dominated by the filter over the elements)" % (T, m), {})
+                    for x in cl_ins:
+                        xf = F.fns[x]
+                        o_ = set()
+                        import fieldflow as _ffx
+                        o_ = _ffx.Origins(F, x).of_place("_0")
+                        if not any(y.startswith("call:") and re.search(r"BTreeSet.*::insert$", y.split("@")[0]) for y in o_) or any(y.startswith("const") or y == "k:true" for y in o_):
+                            rep.violation("DEDUP-total", "%s::%s|filter-verdict" % (T, m), "%s::%s filters with a closure whose verdict is not the result of the ordered-set insert alone" % (T, m), {})
+                    continue
             if not heads or not ins or not pushes or not rets:
                 rep.lost("%s::%s: loop / insert / push / return not recognised (%d %d %d %d)" % (T, m, len(heads), len(ins), len(pushes), len(rets)))
                 continue
@@ -1335,8 +1353,14 @@ def close_len_rule(rep, F):
                 if st[1] == "=" and st[2] == sw and st[3][0] == "discr":
                     src = st[3][1].split("|")[0]
                     if src.startswith("_") and src[1:].isdigit() and fn["locals"][int(src[1:])] in ("cbor_event::Len", "&cbor_event::Len"):
+                        vals = {v for v, tgt in bb["t"][3]}
                         for v, tgt in bb["t"][3]:
                             (indef_edges if v == "0" else def_edges).add((bi, tgt))
+                        # `if let Len::Len(_) = len {..} else {..}`: the otherwise edge stands for the variant not listed
+                        if vals == {"1"}:
+                            indef_edges.add((bi, bb["t"][4]))
+                        elif vals == {"0"}:
+                            def_edges.add((bi, bb["t"][4]))
 
         def reach(start, stop_bbs, cut):
             seen, work = set(), [start]
